@@ -290,9 +290,35 @@ func c15E2EFetch(s *verifh.Session, r *rand.Rand, c *Client, base string, how st
 	if !ok {
 		s.Count("oracle-reject")
 	}
+	// Model-judged part (round 5): with a charset in the Content-Type header, a utf-8 declaration, an unsupported
+	// charset or an unselected type the outcome does not depend on how the network split the body
+	// (header_charset_always_applied, utf8_declared_is_identity, unsupported_charset_untouched,
+	// unselected_body_intact: ∀ split, ∀ buffers) — so the Lean model, run on the body in ONE segment, says what
+	// the client must deliver over any protocol. The sniffing path stays with the oracle (two outcomes).
+	if !peekPath && err == nil && anomaly == "" {
+		s.Count("model-judged:" + how)
+		s.Case(c15OutLine(&st, ct, b.body, hdrEnc), verifh.Hex(string(got))+" "+term, true, "", sel && len(b.body) > 0 && hdrEnc != nil,
+			human+fmt.Sprintf(" -> %s, %d bytes (model: outcome independent of the network split)", proto, len(got)))
+	}
 	detail := fmt.Sprintf("%s; response over %q; err=%v term=%s anomaly=%s got=%s", why, proto, err, term, anomaly, c15Short(string(got)))
 	s.Observe(id, ok, class, sel && len(b.body) > 0 && (hdrEnc != nil || len(allowed) > 1), human+fmt.Sprintf(" -> %s, %d bytes", proto, len(got)), detail)
 	return proto
+}
+
+// c15OutLine: the model line for a response whose outcome is independent of the segmentation: the body in one
+// segment, read with 4096-byte buffers; answer `<hex delivered> <eof|err>` (driver lanes c15out / c15outp).
+func c15OutLine(st *c15Settings, ct, body string, hdrEnc encoding.Encoding) string {
+	mp, _, _, _ := c15MediaParse(ct)
+	var tbl c15Tbl
+	if hdrEnc != nil {
+		tbl.addFor(hdrEnc, body)
+	}
+	rest := strings.Join([]string{verifh.Hex(""), verifh.Hex(ct), mp, c15DecID(hdrEnc), "C", tbl.String(), verifh.HexList([]string{body}), "eof", "0", verifh.IntList(nil), "4096"}, " ")
+	if st.kind == "prog" {
+		return "c15outp " + c15ProgString(st.prog, ct) + " " + fmt.Sprint(st.use) + " " + rest
+	}
+	disable, filter := st.filterArg(ct)
+	return "c15out " + disable + " " + filter + " " + rest
 }
 
 // c15Reconfigure puts a long-lived client back to the defaults and applies the case's settings
